@@ -131,6 +131,8 @@ package p9
 //@ define sameFids(cs *connState) bool = forall(k, fid, has(cs.fids, k) == old(has(cs.fids, k)) && cs.fids[k] == old(cs.fids[k]))
 //@ define isErr(m message, no linux.Errno) bool = typeis(m, *rlerror) && unbox(m, *rlerror).Error == uint32(no)
 //@ define nocalls() bool = ncalls() == old(ncalls())
+// the message size in force on a connection (4 MiB until negotiated)
+//@ define effMsize(cs *connState) uint32 = ite(cs.messageSize == 0, maximumLength, cs.messageSize)
 //@ define sameTags(cs *connState) bool = cs.tags == old(cs.tags) && forall(k, tag, has(cs.tags, k) == old(has(cs.tags, k)) && cs.tags[k] == old(cs.tags[k]))
 //@ define isEOF(e error) bool = errorsIs(e, io.EOF)
 // every name registered in the path tree is a safe path component
@@ -648,13 +650,13 @@ package p9
 //@ func (*tread).handle
 //@   use handlerBase dirOpRows
 //@   at (*sync.Pool).Get assume typeis(ret0, *[]byte) && unbox(ret0, *[]byte) != nil && len(*unbox(ret0, *[]byte)) == int(cs.messageSize)
-//@   requires[C13] cs.messageSize <= maximumLength
+//@   requires[C13] @msize-admits-a-reply-frame 11 <= cs.messageSize && cs.messageSize <= maximumLength
 //@   ensures[C06] @reply-type typeis(result, *rreadServerPayloader) || typeis(result, *rlerror)
 //@   ensures[C04] @unbound-fid-ebadf !old(has(cs.fids, t.fid)) ==> isErr(result, linux.EBADF) && nocalls()
 //@   ensures[C04] @unopened-einval old(has(cs.fids, t.fid)) && int(old(t.Count)) <= int(maximumLength) && old(cs.fids[t.fid].pendingXattr.op) == xattrNone && !old(cs.fids[t.fid].opened) ==> isErr(result, linux.EINVAL) && nocalls()
 //@   ensures[C04] @write-only-eperm old(has(cs.fids, t.fid)) && int(old(t.Count)) <= int(maximumLength) && old(cs.fids[t.fid].pendingXattr.op) == xattrNone && old(cs.fids[t.fid].opened) && old(cs.fids[t.fid].openFlags)&OpenFlagsModeMask == WriteOnly ==> isErr(result, linux.EPERM) && nocalls()
 //@   ensures[C04] @xattr-fid-no-backend old(has(cs.fids, t.fid)) && old(cs.fids[t.fid].pendingXattr.op) != xattrNone ==> nocalls()
-//@   at File.ReadAt requires[C03] @forwards recv == old(cs.fids[t.fid]).file && len(arg0) == int(old(t.Count)) && arg1 == int64(old(t.Offset))
+//@   at File.ReadAt requires[C03] @forwards recv == old(cs.fids[t.fid]).file && len(arg0) == int(min(old(t.Count), cs.messageSize - 11)) && arg1 == int64(old(t.Offset))
 //@   ensures[C13] @frame-le-msize typeis(result, *rreadServerPayloader) ==> 7 + 4 + len(unbox(result, *rreadServerPayloader).Data) <= int(cs.messageSize)
 //@   ensures[C13,C18] @data-le-count typeis(result, *rreadServerPayloader) ==> len(unbox(result, *rreadServerPayloader).Data) <= int(old(t.Count))
 //@   ensures[C15] @backend-error-reported ncalls() > old(ncalls()) && ghost("$lasterr", error) != nil && !isEOF(ghost("$lasterr", error)) ==> isErr(result, errno(ghost("$lasterr", error)))
@@ -678,8 +680,10 @@ package p9
 //@   ensures[C04] @unopened-einval old(has(cs.fids, t.Directory)) && !old(cs.fids[t.Directory].opened) ==> isErr(result, linux.EINVAL) && nocalls()
 //@   ensures[C04] @not-a-dir-einval old(has(cs.fids, t.Directory)) && !FileMode.IsDir(old(cs.fids[t.Directory].mode)) ==> isErr(result, linux.EINVAL) && nocalls()
 //@   ensures[C08] @fenced-refused old(has(cs.fids, t.Directory)) && old(fenced(cs.fids[t.Directory])) ==> isErr(result, linux.EINVAL) && nocalls()
-//@   at File.Readdir requires[C03,C19] @forwards recv == old(cs.fids[t.Directory]).file && arg0 == old(t.Offset) && arg1 == old(t.Count)
-//@   ensures[C13,C19] @count-passed-to-encoder typeis(result, *rreaddir) ==> unbox(result, *rreaddir).Count == old(t.Count)
+//@   requires[C13] @msize-admits-a-reply-frame cs.messageSize == 0 || (11 <= cs.messageSize && cs.messageSize <= maximumLength)
+//@   at File.Readdir requires[C03,C19] @forwards recv == old(cs.fids[t.Directory]).file && arg0 == old(t.Offset) && arg1 == min(old(t.Count), effMsize(cs) - 11)
+//@   ensures[C13,C19] @count-passed-to-encoder typeis(result, *rreaddir) ==> unbox(result, *rreaddir).Count == min(old(t.Count), effMsize(cs) - 11)
+//@   ensures[C13] @frame-le-msize typeis(result, *rreaddir) ==> 7 + 4 + int(unbox(result, *rreaddir).Count) <= int(effMsize(cs))
 //@   ensures[C15] @backend-error-reported ncalls() > old(ncalls()) && ghost("$lasterr", error) != nil && !isEOF(ghost("$lasterr", error)) ==> isErr(result, errno(ghost("$lasterr", error)))
 
 //@ func (*txattrcreate).handle
@@ -1023,6 +1027,8 @@ package p9
 // byte-array level (section "buffer primitives, array level") and used by
 // everything else through the sequence-level restatement (bridge_ensures).
 
+//@ inline (*buffer).markOverrun, (*buffer).isOverrun, (*buffer).has
+
 //@ group wrFrame
 //@   modifies $wr, b.data, arrays(byte)
 //@ group rdFrame
@@ -1031,23 +1037,28 @@ package p9
 //@ func (*buffer).Write8
 //@   abstract
 //@   use wrFrame
+//@   ensures[C01,C13] len(b.data) == old(len(b.data)) + 1
 //@   bridge_ensures[C01] wr(b) == snoc8(old(wr(b)), v) && sameWrExcept(b)
 //@ func (*buffer).Write16
 //@   abstract
 //@   use wrFrame
+//@   ensures[C01,C13] len(b.data) == old(len(b.data)) + 2
 //@   bridge_ensures[C01] wr(b) == snoc16(old(wr(b)), v) && sameWrExcept(b)
 //@ func (*buffer).Write32
 //@   abstract
 //@   use wrFrame
+//@   ensures[C01,C13] len(b.data) == old(len(b.data)) + 4
 //@   bridge_ensures[C01] wr(b) == snoc32(old(wr(b)), v) && sameWrExcept(b)
 //@ func (*buffer).Write64
 //@   abstract
 //@   use wrFrame
+//@   ensures[C01,C13] len(b.data) == old(len(b.data)) + 8
 //@   bridge_ensures[C01] wr(b) == snoc64(old(wr(b)), v) && sameWrExcept(b)
 //@ func (*buffer).WriteString
 //@   abstract
 //@   use wrFrame
 //@   requires[C01] @length-fits-16-bits len(s) <= 65535
+//@   ensures[C01,C13] len(b.data) == old(len(b.data)) + 2 + len(s)
 //@   bridge_ensures[C01] wr(b) == snocstr(old(wr(b)), s) && sameWrExcept(b)
 
 //@ func (*buffer).Read8
@@ -1084,14 +1095,17 @@ package p9
 // typed wrappers: proved against the primitives
 //@ group w8
 //@   use wrFrame
+//@   ensures[C01,C13] len(b.data) == old(len(b.data)) + 1
 //@   ensures[C01] wr(b) == snoc8(old(wr(b)), uint8(arg1)) && sameWrExcept(b)
 //@   nopanic
 //@ group w16
 //@   use wrFrame
+//@   ensures[C01,C13] len(b.data) == old(len(b.data)) + 2
 //@   ensures[C01] wr(b) == snoc16(old(wr(b)), uint16(arg1)) && sameWrExcept(b)
 //@   nopanic
 //@ group w32
 //@   use wrFrame
+//@   ensures[C01,C13] len(b.data) == old(len(b.data)) + 4
 //@   ensures[C01] wr(b) == snoc32(old(wr(b)), uint32(arg1)) && sameWrExcept(b)
 //@   nopanic
 //@ func (*buffer).WriteQIDType
@@ -1112,6 +1126,7 @@ package p9
 //@   use w32
 //@ func (*buffer).WritePermissions
 //@   use wrFrame
+//@   ensures[C01,C13] len(b.data) == old(len(b.data)) + 4
 //@   ensures[C01] @low-12-bits-only wr(b) == snoc32(old(wr(b)), uint32(perm & permissionsMask)) && sameWrExcept(b)
 //@   nopanic
 
@@ -1378,3 +1393,45 @@ package p9
 //@   loop 0 invariant[C01,C18] !old(b.overflow) && old(rd(b)) == dec_AttrMask(mv, dec_Attr(ma, cons16(mn, consqids(mq, 0, int(mn), R)))) ==> i <= int(mn) && r.Valid == mv && r.Attr == ma && len(r.QIDs) == i && forall(j, 0, i, r.QIDs[j] == mq[j]) && rd(b) == consqids(mq, i, int(mn), R) && !b.overflow
 //@   loop 0 invariant[C02,C18] old(b.overflow) ==> b.overflow
 //@   loop 0 invariant[C01] sameRdExcept(b)
+
+// ---- payload-carrying messages -------------------------------------------------------
+// Rread / Twrite: the count goes into the fixed part, the data travels as the
+// frame's payload (see send/recv); decode accepts the frame only when the count
+// equals the payload length recv attached.
+//@ func (*rread).encode
+//@   use wrFrame
+//@   ensures[C01] @wire-layout wr(b) == snoc32(old(wr(b)), uint32(len(r.Data))) && sameWrExcept(b)
+//@   ensures[C01,C13] @encoded-size len(b.data) == old(len(b.data)) + 4
+//@   nopanic
+//@ func (*rread).decode
+//@   modifies $rd, b.overflow, b.data
+//@   ensures[C01,C18] @count-must-match-payload !old(b.overflow) && has32(old(rd(b))) ==> rd(b) == drop32(old(rd(b))) && b.overflow == (take32(old(rd(b))) != uint32(len(r.Data)))
+//@   ensures[C02,C18] @overrun-is-sticky old(b.overflow) ==> b.overflow
+//@   ensures[C01] @other-buffers-untouched sameRdExcept(b)
+//@   nopanic
+//@ func (*twrite).encode
+//@   use wrFrame
+//@   ensures[C01] @wire-layout wr(b) == snoc32(snoc64(snoc32(old(wr(b)), uint32(t.fid)), t.Offset), uint32(len(t.Data))) && sameWrExcept(b)
+//@   ensures[C01,C13] @encoded-size len(b.data) == old(len(b.data)) + 16
+//@   nopanic
+//@ func (*twrite).decode
+//@   modifies $rd, b.overflow, b.data, self.fid, self.Offset
+//@   ensures[C01,C18] @fields-and-count !old(b.overflow) && has32(old(rd(b))) && has64(drop32(old(rd(b)))) && has32(drop64(drop32(old(rd(b))))) ==> t.fid == fid(take32(old(rd(b)))) && t.Offset == take64(drop32(old(rd(b)))) && rd(b) == drop32(drop64(drop32(old(rd(b))))) && b.overflow == (take32(drop64(drop32(old(rd(b))))) != uint32(len(t.Data)))
+//@   ensures[C02,C18] @overrun-is-sticky old(b.overflow) ==> b.overflow
+//@   ensures[C01] @other-buffers-untouched sameRdExcept(b)
+//@   nopanic
+//@ msgtype rreadServerPayloader = 117
+
+// Rreaddir: count[4] then, as payload, the whole entries that fit in the
+// requested byte count.
+//@ func (*rreaddir).encode
+//@   requires[C01,C13] forall(j, 0, len(r.Entries), len(r.Entries[j].Name) <= 65535)
+//@   modifies $wr, b.data, arrays(byte), self.Count, self.payload
+//@   ensures[C13,C19] @payload-within-requested-count len(r.payload) <= int(old(r.Count))
+//@   ensures[C01,C13] @count-is-payload-length r.Count == uint32(len(r.payload)) && len(r.payload) >= 0
+//@   ensures[C01] @wire-layout wr(b) == snoc32(old(wr(b)), r.Count)
+//@   ensures[C01,C13] @encoded-size len(b.data) == old(len(b.data)) + 4
+//@   nopanic
+//@   loop 0 invariant[C13] 0 <= rangeindex + 1 && rangeindex + 1 <= len(r.Entries)
+//@   loop 0 invariant[C13] 0 <= payloadSize && payloadSize <= int(r.Count) && payloadSize <= len(entriesBuf.data)
+//@   loop 0 invariant[C13] r.Count == old(r.Count) && wr(b) == old(wr(b)) && b.data == old(b.data)
